@@ -64,7 +64,7 @@ Proof.
   intros NT So w a idx ts Hin Hres.
   destruct (acks_covered_by_published evs NT So a idx ts Hin Hres) as (P & Hp & Hlt & ls & Hl).
   pose proof (Inv_reachable sha evs) as (C & _).
-  destruct (chain_wf sha _ _ _ C Hl) as [Sz Rt].
+  destruct (chain_wf sha _ _ _ C Hl) as (Sz & Rt & _).
   destruct (ack_names_committed_leaf sha evs a idx ts Hin Hres) as [_ H].
   destruct (H P ls Hl) as (sl & Hn & Hk & Ht & Hi); [lia|].
   exists P, ls, sl. repeat split; assumption.
